@@ -12,6 +12,8 @@ import (
 	"fmt"
 
 	"gitlab.com/gomidi/midi/v2"
+	cc "gitlab.com/gomidi/midi/v2/internal/verifh/conccases"
+	cp "gitlab.com/gomidi/midi/v2/internal/verifh/concpairs"
 	"gitlab.com/gomidi/midi/v2/internal/verifh/engine"
 	ls "gitlab.com/gomidi/midi/v2/internal/verifh/livespace"
 )
@@ -333,6 +335,9 @@ func bend(lp *loop, ch int, sendEvery int) {
 func main() {
 	ctx = engine.Start("C07", "exploration")
 	if ctx.ReplayPath != "" {
+		if cp.Replay(ctx, ctx.LoadReplay(), "constructors", cc.Ctors()) {
+			ctx.Finish("replay")
+		}
 		replay()
 		return
 	}
@@ -348,6 +353,10 @@ func main() {
 	} else {
 		chArgs = append(rng(0, 15), 16, 200, 255)
 	}
+	ctx.Jobs("concurrent", 1, func(int) {
+		cp.Litmus(ctx)
+		cp.Check(ctx, "constructors", cc.Ctors())
+	})
 	ctx.Jobs("three-arg", len(chArgs), func(j int) {
 		lp := newLoop()
 		ch := chArgs[j]
